@@ -2,7 +2,7 @@
 # confirm_seed.sh <src-dir> <name>
 # Confirms a seeded change independently in a scratch worktree of /repo and, if confirmed, stores it as /verif/seeded/<name>/.
 #  (1) pristine tree + demo  => demo passes          (2) patched tree => existing suite passes (297)   (3) patched tree + demo => demo fails
-export GOFLAGS=-mod=mod GOPROXY=off GOSUMDB=off GOTOOLCHAIN=local; unset GOWORK
+export GOFLAGS="-mod=mod ${SEED_LDFLAGS:+-ldflags=$SEED_LDFLAGS}" GOPROXY=off GOSUMDB=off GOTOOLCHAIN=local; unset GOWORK
 src=$1; name=$2
 [ -f "$src/patch.diff" ] || { echo "no patch.diff in $src"; exit 2; }
 d=$(mktemp -d /tmp/verif-seed.XXXX)
